@@ -124,6 +124,15 @@ def monitor(cfg, op, o):
             exp_b = pre["bal"][t] - (got.get(t, 0) if t != 8 else 0)
             if o["bal"][t] != exp_b:
                 out.append(("claim-collector-balance", f"{op}: collector balance of token {t} {pre['bal'][t]} -> {o['bal'][t]}, expected {exp_b}"))
+    elif k == "UpdateEnergy" and o["ok"]:
+        # updateEnergyForUser may only replace the energy of a user who has ALREADY claimed up to the current week: accepting
+        # it earlier overwrites the claim progress and forfeits the user's share of the completed weeks still in the window
+        tgt = op[2]
+        pg = pre["prog"].get(tgt)
+        if pg is not None and pg[3] != o["week"]:
+            out.append(("update-energy-skips-unclaimed-weeks", f"{op} at week {o['week']} accepted although the claim progress of {tgt} was {pg} (week {pg[3]})"))
+        if o["bal"] != pre["bal"]:
+            out.append(("balance-moved", f"{op}: collector balances changed {pre['bal']} -> {o['bal']}"))
     elif k != "Deposit":
         if o["bal"] != pre["bal"]:
             out.append(("balance-moved", f"{op}: collector balances changed {pre['bal']} -> {o['bal']}"))
